@@ -157,6 +157,8 @@ class SubsetGroup(HubListener):
         for s in list(self.subsets):
             if s.data is data:
                 self.subsets.remove(s)
+                if s in data.subsets:
+                    data._subsets.remove(s)
 
     def register_to_hub(self, hub):
 
